@@ -416,7 +416,9 @@ def run_schedule(mon, steps):
             args, kw = b()
             try:
                 SEEDED[q](*args, **kw, seed=seed)
-            except Exception:
+            except Exception as exc:
+                if type(exc).__name__ == "Watchdog":
+                    raise
                 mon.note("schedule-step-raised")
 
 
@@ -465,6 +467,9 @@ def extra_coverage(mon):
 
 def run_case(mon, kind, idx, rng):
     if not NAMES:
+        return
+    if mon.watchdogs >= 3:
+        mon.note("skipped:after-3-watchdogs")
         return
     if len(UNPROBED) <= 2:
         mon.note("at-most-2-unprobed")
